@@ -25,7 +25,7 @@ SPAN_ZERO_WITNESS = [3, 1, 0, 2, 0, 0, 0, 0, 0, 2, 0, 0, 0, 0, 0, 0, 0, 0, 0, 0,
 def replay_span_zero_witness(rep, binp):
     """The `_refuted` witness on the implementation: the model's result must be the implementation's (K on exactly this input) and the
     implementation must show the empty column area the theorem exhibits.  `span 0` is outside the domain of the positive theorems (and
-    of the generators), so this is recorded in the evidence, not reported as a violation; if the implementation stops producing the empty
+    of the generators), so this is the recorded known finding `span-zero-empty-area` (KNOWN-FINDING line); if the implementation stops producing the empty
     area the theorem's comment is stale and the entry says so."""
     try:
         r, msg = P.run_one(binp, SPAN_ZERO_WITNESS)
@@ -39,7 +39,13 @@ def replay_span_zero_witness(rep, binp):
     if r != model:
         rep.add_broken('correspondence', 'span-0 witness of C08_area_in_range_refuted_for_span_zero: model vs implementation',
                        {'case': SPAN_ZERO_WITNESS, 'impl': r, 'model': model})
-    elif not ent['reproduces_on_implementation']:
+    elif ent['reproduces_on_implementation']:
+        kf = [k for k in known_findings('C08') if k.get('id') == 'span-zero-empty-area' and k.get('status') == 'known']
+        if kf:
+            rep.known.append(kf[0]['line'].replace('known: property=C08 ', '') + '  [witness replayed: %s]' % (msg or '')[:160])
+        else:
+            rep.add_violation('a `span 0` item receives an empty grid area: %s' % msg, {'case': SPAN_ZERO_WITNESS, 'cmd': 'vh c08 one ' + ' '.join(map(str, SPAN_ZERO_WITNESS))})
+    else:
         log('[C08] the span-0 witness no longer gives an empty area on the implementation: C08_area_in_range_refuted_for_span_zero is stale')
 
 
